@@ -187,14 +187,35 @@ theorem out_resolution_positive_square (c : Captured) (mode : ResMode) (tight : 
     · have := rabs_pos (div_ne_zero hne hz'.2)
       linarith
 
-/-- **out_shape_request** (exact shape) — an explicit `(ny, nx)` request yields exactly that shape,
-an axis-aligned grid with pixel size `span / n`, whatever `resolution=` says.
-(`_partial`: the "< 1 pixel displacement" half is checked by the oracle, not proved here.) -/
-theorem out_shape_request_partial (c : Captured) (mode : ResMode) (ny nx : Int) (tight : Bool) (anchor : Anchor)
-    (tol : Rat) (rnd : Rounding) (g : Grid)
+/-- **out_shape_request** — an explicit `(ny, nx)` request (whatever `resolution=` says) yields exactly
+that shape and an axis-aligned grid whose pixels are `span / n` (y inverted), and the grid is displaced
+from the projected footprint by **less than one pixel**: its left edge lies in
+`(left − px, left + tol·px]` and its top edge in `[top − tol·py, top + py)`; with `tight=True` or a
+floating anchor it is not displaced at all (`origin = (left, top)`).  For all bounding boxes with
+positive spans, all positive shapes, anchors, and `0 ≤ tol < ½`. -/
+theorem out_shape_request (c : Captured) (mode : ResMode) (ny nx : Int) (tight : Bool) (anchor : Anchor)
+    (tol : Rat) (rnd : Rounding) (g : Grid) (ht : 0 ≤ tol) (ht2 : tol < 1 / 2)
+    (hnx : 0 < nx) (hny : 0 < ny) (hbx : c.bbox.left < c.bbox.right) (hby : c.bbox.bottom < c.bbox.top)
     (h : computeOutput c mode (.exact ny nx) tight anchor tol rnd = .ok (.grid g)) :
     g.ny = ny ∧ g.nx = nx ∧ g.A.b = 0 ∧ g.A.d = 0 ∧
-      g.A.a = (c.bbox.right - c.bbox.left) / nx ∧ g.A.e = -(c.bbox.top - c.bbox.bottom) / ny := by
+      g.A.a = (c.bbox.right - c.bbox.left) / nx ∧ g.A.e = -(c.bbox.top - c.bbox.bottom) / ny ∧
+      (c.bbox.left - g.A.a < g.A.c ∧ g.A.c ≤ c.bbox.left + tol * g.A.a) ∧
+      (c.bbox.top - tol * (-g.A.e) ≤ g.A.f ∧ g.A.f < c.bbox.top + (-g.A.e)) ∧
+      (snapOf anchor tight = none → g.A.c = c.bbox.left ∧ g.A.f = c.bbox.top) := by
+  have hnxq : (0 : Rat) < (nx : Rat) := by exact_mod_cast hnx
+  have hnyq : (0 : Rat) < (ny : Rat) := by exact_mod_cast hny
+  have hnx1 : (1 : Rat) ≤ (nx : Rat) := by exact_mod_cast hnx
+  have hny1 : (1 : Rat) ≤ (ny : Rat) := by exact_mod_cast hny
+  have hsx : 0 < c.bbox.right - c.bbox.left := by linarith
+  have hsy : 0 < c.bbox.top - c.bbox.bottom := by linarith
+  have hrx : 0 < (c.bbox.right - c.bbox.left) / nx := div_pos hsx hnxq
+  have hry : -(c.bbox.top - c.bbox.bottom) / ny < 0 := by
+    rw [neg_div]
+    exact neg_neg_of_pos (div_pos hsy hnyq)
+  have hrxle : (c.bbox.right - c.bbox.left) / nx ≤ c.bbox.right - c.bbox.left := div_le_self hsx.le hnx1
+  have hryle : (c.bbox.top - c.bbox.bottom) / ny ≤ c.bbox.top - c.bbox.bottom := div_le_self hsy.le hny1
+  have hneg : -(-(c.bbox.top - c.bbox.bottom) / ny) = (c.bbox.top - c.bbox.bottom) / ny := by
+    rw [neg_div, neg_neg]
   unfold computeOutput at h
   split at h
   · rename_i hh
@@ -207,16 +228,34 @@ theorem out_shape_request_partial (c : Captured) (mode : ResMode) (ny nx : Int) 
       | none =>
         simp only [hs, Except.map, Except.ok.injEq, Out.grid.injEq] at h
         subst h
-        simp [Aff.mul_def, Aff.mul, Aff.translation, Aff.scale]
-      | some s =>
-        obtain ⟨sx, sy⟩ := s
+        simp only [Aff.mul_def, Aff.mul, Aff.translation, Aff.scale]
+        simp only [one_mul, zero_mul, mul_zero, add_zero, zero_add, mul_one]
+        refine ⟨(by trivial), (by trivial), (by trivial), (by trivial), (by trivial), (by trivial), ⟨by linarith, ?_⟩, ⟨?_, ?_⟩, fun _ => ⟨(by trivial), (by trivial)⟩⟩
+        · nlinarith
+        · rw [hneg]; nlinarith [div_pos hsy hnyq]
+        · rw [hneg]; linarith [div_pos hsy hnyq]
+      | some sxy =>
+        obtain ⟨sx, sy⟩ := sxy
         simp only [hs] at h
         split at h
-        · simp only [Except.map, Except.ok.injEq, Out.grid.injEq] at h
+        · rename_i offx n1 offy n2 hgx hgy
+          simp only [Except.map, Except.ok.injEq, Out.grid.injEq] at h
           subst h
-          simp [Aff.mul_def, Aff.mul, Aff.translation, Aff.scale]
+          have dx := (snapGrid_origin_displacement _ _ _ _ _ _ _ ht ht2
+            (by rw [rabs_of_pos hrx]; exact hrxle) hgx).1 hrx
+          have dy := (snapGrid_origin_displacement _ _ _ _ _ _ _ ht ht2
+            (by rw [rabs_of_neg hry, hneg]; exact hryle) hgy).2 hry
+          simp only [Aff.mul_def, Aff.mul, Aff.translation, Aff.scale]
+          simp only [one_mul, zero_mul, mul_zero, add_zero, zero_add, mul_one]
+          exact ⟨(by trivial), (by trivial), (by trivial), (by trivial), (by trivial), (by trivial), dx, dy, fun hn => by cases hn⟩
         · simp [Except.map] at h
         · simp [Except.map] at h
+
+/-- non-vacuity of `out_shape_request`: a 3×5 request with the centre anchor on the bbox `[1/3, 16/3] × [0, 3]` -/
+example :
+    computeOutput ⟨false, false, (30, -30), ⟨1 / 3, 0, 16 / 3, 3⟩, (1, -1), (1, 1)⟩ .fit (.exact 3 5) false .center
+      (1 / 100) .none = .ok (.grid ⟨3, 5, ⟨1, 0, -1 / 2, 0, -1, 7 / 2⟩⟩) := by
+  decide +kernel
 
 /-- **int_shape_plus_one_cex** — the full statement "a single-integer shape request yields that
 longest side" is false for snapping anchors: the pixel size is derived first (`span / n`) and the
